@@ -150,15 +150,15 @@ theorem startDuty_sign (st : RSt) (slot : Nat) (pre : List Nat) (iok : Bool) (e 
         simp [Ev.isSign] at hs
     · simp [startDuty, hr, hsa] at he
 
-theorem processCons_sign (st : RSt) (c : ConsIn) (e : Ev)
-    (he : e ∈ (processCons st c).2.2) (hs : e.isSign = true) :
+theorem processConsG_sign (pd : Bool) (st : RSt) (c : ConsIn) (e : Ev)
+    (he : e ∈ (processConsG pd st c).2.2) (hs : e.isSign = true) :
     ∃ h v d rid, (ctlProcess st c).2 = .decidedMsg h v ∧ st.duty = some d ∧ d.finished = false ∧ d.running = some rid ∧
-      heightOf (ctlProcess st c).1 rid = h ∧ runningDecided st = false ∧ st.role.hasConsensus = true ∧
+      heightOf (ctlProcess st c).1 rid = h ∧ pd = false ∧ st.role.hasConsensus = true ∧
       v.decodeOk = true ∧ v.vcOk = true ∧ v.getOk = true ∧
-      (processCons st c).1.duty = some { d with decidedValue := some v } ∧
-      (processCons st c).1.heap = (ctlProcess st c).1.heap ∧
+      (processConsG pd st c).1 = { (ctlProcess st c).1 with highestDecidedSlot := v.slot, duty := some { d with decidedValue := some v } } ∧
+      (processConsG pd st c).2.2 = signAll (.decided h) v.objs v.slot st.role.postDomain ++ [.bcast v.objs] ∧
       ∃ o ∈ v.objs, e = .sign (.decided h) o (epochOf v.slot) st.role.postDomain := by
-  unfold processCons at he ⊢
+  unfold processConsG at he ⊢
   split at he
   · simp at he
   · next hcons =>
@@ -219,211 +219,7 @@ theorem processCons_sign (st : RSt) (c : ConsIn) (e : Ev)
                         subst hm
                         simp [Ev.isSign] at hs
 
-/-! ### at most once -/
-
-/-- the instance object `rid` exists and is marked decided -/
-def decidedAt (st : RSt) (rid : Nat) : Prop := ∃ i, instOf st rid = some i ∧ i.decided = true
-
-theorem decidedAt_setInst (st : RSt) (id : Nat) (i : Inst) (rid : Nat) (hi : i.decided = true)
-    (hid : ∃ j, instOf st id = some j) (h : decidedAt st rid ∨ rid = id) : decidedAt (setInst st id i) rid := by
-  unfold decidedAt instOf setInst at *
-  simp only []
-  by_cases e : id = rid
-  · subst e
-    obtain ⟨j, hj⟩ := hid
-    have hlt : id < st.heap.length := by
-      rcases List.getElem?_eq_some_iff.1 hj with ⟨hl, _⟩; exact hl
-    exact ⟨i, by simp [hlt], hi⟩
-  · rcases h with ⟨k, hk, hkd⟩ | h
-    · exact ⟨k, by rw [List.getElem?_set_ne e]; exact hk, hkd⟩
-    · exact absurd h.symm e
-
-theorem decidedAt_newInst (st : RSt) (i : Inst) (rid : Nat) (h : decidedAt st rid) : decidedAt (newInst st i).1 rid := by
-  obtain ⟨k, hk, hkd⟩ := h
-  refine ⟨k, ?_, hkd⟩
-  unfold instOf at *
-  simp only [newInst]
-  have hlt : rid < st.heap.length := by
-    rcases List.getElem?_eq_some_iff.1 hk with ⟨hl, _⟩; exact hl
-  rw [List.getElem?_append_left hlt]; exact hk
-
-theorem decidedAt_heap (st st' : RSt) (rid : Nat) (hh : st'.heap = st.heap) (h : decidedAt st rid) : decidedAt st' rid := by
-  unfold decidedAt instOf at *; rw [hh]; exact h
-
-/-- decided flags are never cleared by the controller -/
-theorem ctlProcess_decidedAt (st : RSt) (c : ConsIn) (rid : Nat) (h : decidedAt st rid) : decidedAt (ctlProcess st c).1 rid := by
-  unfold ctlProcess
-  split
-  · exact h
-  · split
-    · unfold uponDecided
-      split
-      · exact h
-      · split
-        · simp only []
-          split
-          · exact decidedAt_heap _ _ rid rfl (decidedAt_newInst st _ rid h)
-          · exact decidedAt_newInst st _ rid h
-        · next id hf =>
-          split
-          · exact h
-          · next i hi =>
-            split
-            · simp only []
-              have := decidedAt_setInst st id { i with decided := true, value := some c.value } rid rfl ⟨i, hi⟩ (Or.inl h)
-              split
-              · exact decidedAt_heap _ _ rid rfl this
-              · exact this
-            · simp only []
-              split
-              · exact decidedAt_heap _ _ rid rfl h
-              · exact h
-    · split
-      · exact h
-      · unfold uponExisting
-        split
-        · exact h
-        · next id hf =>
-          split
-          · exact h
-          · next i hi =>
-            split
-            · exact h
-            · split
-              · exact h
-              · split
-                · exact h
-                · exact decidedAt_setInst st id { i with decided := true, value := some c.value } rid rfl ⟨i, hi⟩ (Or.inl h)
-
-/-- when the controller still holds the instance object for the message's height, a reported decision marks THAT object -/
-theorem ctlProcess_marks (st : RSt) (c : ConsIn) (h : Nat) (v : Val) (rid : Nat)
-    (hd : (ctlProcess st c).2 = .decidedMsg h v) (hf : findInst st c.height = some rid) (hi : ∃ i, instOf st rid = some i) :
-    decidedAt (ctlProcess st c).1 rid := by
-  obtain ⟨i, hi⟩ := hi
-  unfold ctlProcess at hd ⊢
-  split at hd
-  · cases hd
-  · next hid =>
-    simp only [hid]
-    split at hd
-    · next hdec =>
-      simp only [hdec, if_true]
-      unfold uponDecided at hd ⊢
-      split at hd
-      · cases hd
-      · next hv =>
-        simp only [hv]
-        rw [hf] at hd ⊢
-        simp only [hi] at hd ⊢
-        split at hd
-        · next hnd =>
-          simp only [hnd]
-          have := decidedAt_setInst st rid { i with decided := true, value := some c.value } rid rfl ⟨i, hi⟩ (Or.inr rfl)
-          rw [if_pos trivial]
-          show decidedAt (if decide (c.height > st.ctrlHeight) = true then _ else _) rid
-          split
-          · exact decidedAt_heap _ _ rid rfl this
-          · exact this
-        · cases hd
-    · next hdec =>
-      simp only [hdec]
-      split at hd
-      · cases hd
-      · next hfut =>
-        simp only [hfut]
-        unfold uponExisting at hd ⊢
-        rw [hf] at hd ⊢
-        simp only [hi] at hd ⊢
-        split at hd
-        · cases hd
-        · next he =>
-          simp only [he]
-          split at hd
-          · cases hd
-          · next hdcs =>
-            simp only [hdcs]
-            split at hd
-            · cases hd
-            · next hnd =>
-              simp only [hnd]
-              exact decidedAt_setInst st rid { i with decided := true, value := some c.value } rid rfl ⟨i, hi⟩ (Or.inr rfl)
-
-/-- the running duty's instance object is marked decided -/
-def RD (st : RSt) : Prop := ∃ d rid, st.duty = some d ∧ d.running = some rid ∧ decidedAt st rid
-
-theorem runningDecided_of_RD (st : RSt) (d : DutySt) (rid : Nat) (hd : st.duty = some d) (hr : d.running = some rid)
-    (hdec : decidedAt st rid) (hfin : d.finished = false) : runningDecided st = true := by
-  obtain ⟨i, hi, hid⟩ := hdec
-  simp [runningDecided, hd, hr, hfin, hi, hid]
-
-/-- once the running instance object is decided, consensus messages neither sign nor touch the duty state -/
-theorem processCons_quiet (st : RSt) (c : ConsIn) (h : RD st) :
-    RD (processCons st c).1 ∧ (processCons st c).2.2 = [] := by
-  obtain ⟨d, rid, hd, hr, hdec⟩ := h
-  unfold processCons
-  split
-  · exact ⟨⟨d, rid, hd, hr, hdec⟩, rfl⟩
-  · obtain ⟨hduty, _⟩ := ctlProcess_duty st c
-    have hdec1 := ctlProcess_decidedAt st c rid hdec
-    have hRD1 : RD (ctlProcess st c).1 := ⟨d, rid, by rw [hduty]; exact hd, hr, hdec1⟩
-    simp only []
-    generalize hctl : ctlProcess st c = r at hduty hdec1 hRD1
-    obtain ⟨st1, out⟩ := r
-    simp only [] at hduty hdec1 hRD1 ⊢
-    cases out with
-    | err => exact ⟨hRD1, rfl⟩
-    | nothing => exact ⟨hRD1, rfl⟩
-    | decidedMsg hh v =>
-      simp only []
-      rw [hduty, hd]
-      simp only []
-      by_cases hfin : d.finished = true
-      · simp only [hfin, if_true]; first | exact ⟨hRD1, rfl⟩ | exact ⟨hRD1, trivial⟩
-      · have hfin' : d.finished = false := by simpa using hfin
-        simp only [hfin', Bool.false_eq_true, if_false, hr]
-        split
-        · exact ⟨hRD1, rfl⟩
-        · have := runningDecided_of_RD st d rid hd hr hdec hfin'
-          simp only [this, if_true]
-          first | exact ⟨hRD1, rfl⟩ | exact ⟨hRD1, trivial⟩
-
-theorem processPost_RD (st : RSt) (m : PartialSig.Msg) (slot : Nat) (h : RD st) : RD (processPost st m slot).1 := by
-  obtain ⟨d, rid, hd, hr, hdec⟩ := h
-  unfold processPost
-  split
-  · exact ⟨d, rid, hd, hr, hdec⟩
-  · rw [hd]
-    simp only []
-    split
-    · split
-      · exact ⟨d, rid, hd, hr, hdec⟩
-      · exact ⟨_, rid, rfl, hr, decidedAt_heap _ _ rid rfl hdec⟩
-    · exact ⟨d, rid, hd, hr, hdec⟩
-
-theorem processPre_noop (st : RSt) (m : PartialSig.Msg) (slot : Nat) (iok : Bool)
-    (hrole : (st.role == .attester || st.role == .syncCommittee) = true) : (processPre st m slot iok).1 = st := by
-  unfold processPre
-  split
-  · rfl
-  · simp [hrole]
-
-/-- quiet inputs keep `RD` and release no signature -/
-theorem step_quiet (st : RSt) (i : In) (hq : i.quiet st.role = true) (h : RD st) :
-    RD (step st i).1 ∧ ∀ e ∈ (step st i).2.2, e.isSign = false := by
-  cases i with
-  | start _ _ _ => simp [In.quiet] at hq
-  | pre m slot iok =>
-    simp only [In.quiet] at hq
-    simp only [step]
-    refine ⟨by rw [processPre_noop st m slot iok hq]; exact h, processPre_no_sign st m slot iok⟩
-  | cons c =>
-    simp only [step]
-    obtain ⟨a, b⟩ := processCons_quiet st c h
-    exact ⟨a, by rw [b]; simp⟩
-  | post m slot =>
-    simp only [step]
-    exact ⟨processPost_RD st m slot h, processPost_no_sign st m slot⟩
-  | «foreign» => simp only [step]; exact ⟨h, by simp⟩
+/-! ### the role never changes -/
 
 theorem startNewInstance_role (st : RSt) (h : Nat) (ok : Bool) : (startNewInstance st h ok).1.role = st.role := by
   unfold startNewInstance
@@ -464,7 +260,7 @@ theorem step_role (st : RSt) (i : In) : (step st i).1.role = st.role := by
           · exact decideDuty_role _ _ _
           · rfl
   | cons c =>
-    simp only [step, processCons]
+    simp only [step, processCons, processConsG]
     split
     · rfl
     · have := (ctlProcess_duty st c).2
@@ -479,27 +275,608 @@ theorem step_role (st : RSt) (i : In) : (step st i).1.role = st.role := by
     all_goals rfl
   | «foreign» => rfl
 
-theorem run_quiet (st : RSt) (ins : List In) (hq : ∀ i ∈ ins, i.quiet st.role = true) (h : RD st) :
-    ∀ p ∈ run st ins, ∀ e ∈ p.2, e.isSign = false := by
-  induction ins generalizing st with
-  | nil => simp [run]
+
+/-! ### heap and container facts -/
+
+theorem heightOf_heap (st st' : RSt) (h : st'.heap = st.heap) (id : Nat) : heightOf st' id = heightOf st id := by
+  unfold heightOf; rw [h]
+
+theorem heightOf_setInst (st : RSt) (id : Nat) (j i : Inst) (hj : instOf st id = some j) (hh : i.height = j.height)
+    (rid : Nat) : heightOf (setInst st id i) rid = heightOf st rid := by
+  unfold heightOf setInst instOf at *
+  simp only []
+  by_cases e : id = rid
+  · subst e
+    obtain ⟨hlt, hget⟩ := List.getElem?_eq_some_iff.1 hj
+    simp [hlt, hget, hh]
+  · rw [List.getElem?_set_ne e]
+
+theorem heightOf_append (st : RSt) (i : Inst) (rid : Nat) (h : rid < st.heap.length) :
+    heightOf { st with heap := st.heap ++ [i] } rid = heightOf st rid := by
+  unfold heightOf
+  simp only []
+  rw [List.getElem?_append_left h]
+
+theorem heightOf_append_new (st : RSt) (i : Inst) :
+    heightOf { st with heap := st.heap ++ [i] } st.heap.length = i.height := by
+  unfold heightOf
+  simp
+
+theorem cap_pos : 0 < Gen.ctrl_InstanceContainerDefaultCapacity := by decide
+
+theorem mem_addNewInstance (st : RSt) (id h x : Nat) (hx : x ∈ addNewInstance st id h) : x ∈ st.stored ∨ x = id := by
+  unfold addNewInstance at hx
+  simp only [] at hx
+  generalize insertIdx st h = idx at hx
+  split at hx
+  · split at hx
+    · rcases List.mem_append.1 hx with a | a
+      · exact Or.inl a
+      · exact Or.inr (by simpa using a)
+    · exact Or.inl hx
+  · split at hx
+    · have := (List.dropLast_sublist _).subset hx
+      simp only [List.mem_append, List.mem_singleton] at this
+      rcases this with (a | a) | a
+      · exact Or.inl (List.mem_of_mem_take a)
+      · exact Or.inr a
+      · exact Or.inl (List.mem_of_mem_drop a)
+    · simp only [List.mem_append, List.mem_singleton] at hx
+      rcases hx with (a | a) | a
+      · exact Or.inl (List.mem_of_mem_take a)
+      · exact Or.inr a
+      · exact Or.inl (List.mem_of_mem_drop a)
+
+theorem addNewInstance_ne_nil (st : RSt) (id h : Nat) : addNewInstance st id h ≠ [] := by
+  unfold addNewInstance
+  simp only []
+  generalize insertIdx st h = idx
+  split
+  · split
+    · simp
+    · next hlt =>
+      intro e
+      rw [e] at hlt
+      exact hlt cap_pos
+  · next hidx =>
+    split
+    · next hcap =>
+      intro e
+      have hl := congrArg List.length e
+      simp only [List.length_dropLast, List.length_append, List.length_take, List.length_drop, List.length_cons,
+        List.length_nil] at hl
+      have := cap_pos
+      omega
+    · simp
+
+/-- the controller part of the state is well formed: stored ids are allocated and not above the controller height -/
+def StoredOK (st : RSt) : Prop := ∀ id ∈ st.stored, id < st.heap.length ∧ heightOf st id ≤ st.ctrlHeight
+
+/-- `st1` extends `st`: controller height and heap only grow, existing instance heights are unchanged, a non-empty
+    container stays non-empty, role and duty untouched -/
+structure Ext (st st1 : RSt) : Prop where
+  ch : st.ctrlHeight ≤ st1.ctrlHeight
+  len : st.heap.length ≤ st1.heap.length
+  hts : ∀ rid, rid < st.heap.length → heightOf st1 rid = heightOf st rid
+  ne : st.stored ≠ [] → st1.stored ≠ []
+  role : st1.role = st.role
+  duty : st1.duty = st.duty
+
+theorem Ext.refl (st : RSt) : Ext st st := ⟨Nat.le_refl _, Nat.le_refl _, fun _ _ => rfl, id, rfl, rfl⟩
+
+theorem Ext.trans {a b c : RSt} (h1 : Ext a b) (h2 : Ext b c) : Ext a c :=
+  ⟨Nat.le_trans h1.ch h2.ch, Nat.le_trans h1.len h2.len,
+   fun rid hr => by rw [h2.hts rid (Nat.lt_of_lt_of_le hr h1.len), h1.hts rid hr],
+   fun h => h2.ne (h1.ne h), by rw [h2.role, h1.role], by rw [h2.duty, h1.duty]⟩
+
+/-- marking an instance decided -/
+theorem setInst_ext (st : RSt) (id : Nat) (j i : Inst) (hj : instOf st id = some j) (hh : i.height = j.height)
+    (H' : Nat) (hH : st.ctrlHeight ≤ H') (hok : StoredOK st) :
+    Ext st { setInst st id i with ctrlHeight := H' } ∧ StoredOK { setInst st id i with ctrlHeight := H' } := by
+  have hht : ∀ rid, heightOf { setInst st id i with ctrlHeight := H' } rid = heightOf st rid := fun rid =>
+    (heightOf_heap _ (setInst st id i) rfl rid).trans (heightOf_setInst st id j i hj hh rid)
+  refine ⟨⟨hH, by simp [setInst], fun rid _ => hht rid, fun h => h, rfl, rfl⟩, ?_⟩
+  intro x hx
+  obtain ⟨a, b⟩ := hok x hx
+  refine ⟨by simpa [setInst] using a, ?_⟩
+  rw [hht]; exact Nat.le_trans b hH
+
+/-- allocating an instance and putting it into the container -/
+theorem newInst_ext (st : RSt) (i : Inst) (H' : Nat) (hH : st.ctrlHeight ≤ H') (hi : i.height ≤ H') (hok : StoredOK st) :
+    Ext st { (newInst st i).1 with ctrlHeight := H' } ∧ StoredOK { (newInst st i).1 with ctrlHeight := H' } ∧
+    (newInst st i).2 = st.heap.length ∧ heightOf (newInst st i).1 st.heap.length = i.height ∧
+    (newInst st i).1.stored ≠ [] := by
+  have hold : ∀ rid, rid < st.heap.length → heightOf { (newInst st i).1 with ctrlHeight := H' } rid = heightOf st rid := by
+    intro rid hr
+    exact (heightOf_heap _ { st with heap := st.heap ++ [i] } rfl rid).trans (heightOf_append st i rid hr)
+  have hnew : heightOf (newInst st i).1 st.heap.length = i.height :=
+    (heightOf_heap _ { st with heap := st.heap ++ [i] } rfl _).trans (heightOf_append_new st i)
+  have hne : (newInst st i).1.stored ≠ [] := by
+    simp only [newInst]; exact addNewInstance_ne_nil _ _ _
+  refine ⟨⟨hH, by simp [newInst], hold, fun _ => hne, rfl, rfl⟩, ?_, rfl, hnew, hne⟩
+  intro x hx
+  have hx' : x ∈ addNewInstance { st with heap := st.heap ++ [i] } st.heap.length i.height := hx
+  rcases mem_addNewInstance _ _ _ _ hx' with a | a
+  · obtain ⟨v1, v2⟩ := hok x a
+    refine ⟨by simp [newInst]; omega, ?_⟩
+    rw [hold x v1]; exact Nat.le_trans v2 hH
+  · subst a
+    refine ⟨by simp [newInst], ?_⟩
+    have e := (heightOf_heap { (newInst st i).1 with ctrlHeight := H' } (newInst st i).1 rfl st.heap.length).trans hnew
+    exact Nat.le_trans (Nat.le_of_eq e) hi
+
+
+theorem bump_ext (st : RSt) (H' : Nat) (hH : st.ctrlHeight ≤ H') (hok : StoredOK st) :
+    Ext st { st with ctrlHeight := H' } ∧ StoredOK { st with ctrlHeight := H' } := by
+  refine ⟨⟨hH, Nat.le_refl _, fun _ _ => rfl, fun h => h, rfl, rfl⟩, ?_⟩
+  intro x hx
+  obtain ⟨a, b⟩ := hok x hx
+  exact ⟨a, Nat.le_trans b hH⟩
+
+/-- the controller keeps its part of the state well formed and only extends it -/
+theorem ctlProcess_ext (st : RSt) (c : ConsIn) (hok : StoredOK st) :
+    Ext st (ctlProcess st c).1 ∧ StoredOK (ctlProcess st c).1 := by
+  unfold ctlProcess
+  split
+  · exact ⟨Ext.refl st, hok⟩
+  · split
+    · unfold uponDecided
+      split
+      · exact ⟨Ext.refl st, hok⟩
+      · split
+        · -- no instance for the height: allocate one
+          simp only []
+          split
+          · next hfut =>
+            have hfut' : c.height > st.ctrlHeight := by simpa using hfut
+            obtain ⟨a, b, _⟩ := newInst_ext st { height := c.height, decided := true, value := some c.value } c.height
+              (Nat.le_of_lt hfut') (Nat.le_refl _) hok
+            exact ⟨a, b⟩
+          · next hfut =>
+            have hfut' : c.height ≤ st.ctrlHeight := by simpa using hfut
+            obtain ⟨a, b, _⟩ := newInst_ext st { height := c.height, decided := true, value := some c.value } st.ctrlHeight
+              (Nat.le_refl _) hfut' hok
+            exact ⟨a, b⟩
+        · next id hf =>
+          split
+          · exact ⟨Ext.refl st, hok⟩
+          · next i hi =>
+            split
+            · simp only []
+              split
+              · next hfut =>
+                have hfut' : c.height > st.ctrlHeight := by simpa using hfut
+                exact setInst_ext st id i { i with decided := true, value := some c.value } hi rfl c.height (Nat.le_of_lt hfut') hok
+              · exact setInst_ext st id i { i with decided := true, value := some c.value } hi rfl st.ctrlHeight (Nat.le_refl _) hok
+            · simp only []
+              split
+              · next hfut =>
+                have hfut' : c.height > st.ctrlHeight := by simpa using hfut
+                exact bump_ext st c.height (Nat.le_of_lt hfut') hok
+              · exact ⟨Ext.refl st, hok⟩
+    · split
+      · exact ⟨Ext.refl st, hok⟩
+      · unfold uponExisting
+        split
+        · exact ⟨Ext.refl st, hok⟩
+        · next id hf =>
+          split
+          · exact ⟨Ext.refl st, hok⟩
+          · next i hi =>
+            split
+            · exact ⟨Ext.refl st, hok⟩
+            · split
+              · exact ⟨Ext.refl st, hok⟩
+              · split
+                · exact ⟨Ext.refl st, hok⟩
+                · exact setInst_ext st id i { i with decided := true, value := some c.value } hi rfl st.ctrlHeight (Nat.le_refl _) hok
+
+theorem findInst_some (st : RSt) (h id : Nat) (hf : findInst st h = some id) : id ∈ st.stored ∧ heightOf st id = h := by
+  unfold findInst at hf
+  have := List.find?_some hf
+  exact ⟨List.mem_of_find?_eq_some hf, by simpa using this⟩
+
+/-- `StartNewInstance`: the controller part stays well formed; on success the returned instance is allocated, stored, has
+    the requested height, and that height is the new controller height -/
+theorem startNewInstance_ext (st : RSt) (height : Nat) (ok : Bool) (hok : StoredOK st) :
+    Ext st (startNewInstance st height ok).1 ∧ StoredOK (startNewInstance st height ok).1 ∧
+    ∀ id, (startNewInstance st height ok).2 = some id →
+      id < (startNewInstance st height ok).1.heap.length ∧ heightOf (startNewInstance st height ok).1 id = height ∧
+      (startNewInstance st height ok).1.ctrlHeight = height ∧ (startNewInstance st height ok).1.stored ≠ [] ∧
+      st.ctrlHeight ≤ height ∧ findInst st height = none := by
+  unfold startNewInstance
+  split
+  · exact ⟨Ext.refl st, hok, fun _ h => by cases h⟩
+  · split
+    · exact ⟨Ext.refl st, hok, fun _ h => by cases h⟩
+    · next hlt =>
+      have hle : st.ctrlHeight ≤ height := by omega
+      split
+      · exact ⟨Ext.refl st, hok, fun _ h => by cases h⟩
+      · next hnone =>
+        have hnone' : findInst st height = none := by
+          cases hf : findInst st height with
+          | none => rfl
+          | some x => rw [hf] at hnone; simp at hnone
+        obtain ⟨b1, b2⟩ := bump_ext st height hle hok
+        obtain ⟨a, b, _, _, hne⟩ := newInst_ext { st with ctrlHeight := height } { height := height, decided := false, value := none }
+          height (Nat.le_refl _) (Nat.le_refl _) b2
+        have hext : Ext st (newInst { st with ctrlHeight := height } { height := height, decided := false, value := none }).1 :=
+          Ext.trans b1 a
+        simp only []
+        split
+        · exact ⟨hext, b, fun _ h => by cases h⟩
+        · next found hfound =>
+          refine ⟨hext, b, ?_⟩
+          intro id hid
+          simp only [Option.some.injEq] at hid
+          subst hid
+          obtain ⟨m1, m2⟩ := findInst_some _ _ _ hfound
+          exact ⟨(b found m1).1, m2, rfl, hne, hle, hnone'⟩
+
+
+/-! ### the at-most-once invariant -/
+
+/-- `H`: heights for which a decided object has been signed so far -/
+structure Inv (st : RSt) (H : List Nat) : Prop where
+  ok : StoredOK st
+  noCons : st.role.hasConsensus = false → H = []
+  le : ∀ h ∈ H, h ≤ st.ctrlHeight
+  ne : (0 ∈ H ∨ ∃ d rid, st.duty = some d ∧ d.running = some rid) → st.stored ≠ []
+  run : ∀ d rid, st.duty = some d → d.running = some rid →
+    rid < st.heap.length ∧ heightOf st rid = d.slot ∧ d.slot ≤ st.ctrlHeight
+  fresh : ∀ d, st.duty = some d → d.decidedValue = none → d.slot ∈ H → d.running = none ∧ d.slot = 0
+
+theorem Inv.init (role : Role) (n : Nat) : Inv (init role n) [] := by
+  refine ⟨?_, fun _ => rfl, ?_, ?_, ?_, ?_⟩
+  · intro id h; simp [Runner.init] at h
+  · intro h hh; cases hh
+  · intro h
+    rcases h with h | ⟨_, _, h, _⟩
+    · cases h
+    · simp [Runner.init] at h
+  · intro d rid h; simp [Runner.init] at h
+  · intro d h; simp [Runner.init] at h
+
+/-- same controller part, duty replaced by one with the same slot and running instance (and not "less decided") -/
+theorem Inv.of_same {st st' : RSt} {H : List Nat} (hinv : Inv st H) (h1 : st'.ctrlHeight = st.ctrlHeight)
+    (h2 : st'.stored = st.stored) (h3 : st'.heap = st.heap) (h4 : st'.role = st.role)
+    (hd : ∀ d', st'.duty = some d' → ∃ d, st.duty = some d ∧ d'.slot = d.slot ∧ d'.running = d.running ∧
+        (d'.decidedValue = none → d.decidedValue = none)) : Inv st' H := by
+  have hht : ∀ id, heightOf st' id = heightOf st id := heightOf_heap st st' h3
+  refine ⟨?_, ?_, ?_, ?_, ?_, ?_⟩
+  · intro id hid
+    rw [h2] at hid
+    obtain ⟨a, b⟩ := hinv.ok id hid
+    exact ⟨by rw [h3]; exact a, by rw [hht, h1]; exact b⟩
+  · rw [h4]; exact hinv.noCons
+  · intro h hh; rw [h1]; exact hinv.le h hh
+  · intro h
+    rw [h2]
+    apply hinv.ne
+    rcases h with h | ⟨d', rid, hd', hr⟩
+    · exact Or.inl h
+    · obtain ⟨d, e1, _, e3, _⟩ := hd d' hd'
+      exact Or.inr ⟨d, rid, e1, by rw [← e3]; exact hr⟩
+  · intro d' rid hd' hr
+    obtain ⟨d, e1, e2, e3, _⟩ := hd d' hd'
+    obtain ⟨a, b, c⟩ := hinv.run d rid e1 (by rw [← e3]; exact hr)
+    exact ⟨by rw [h3]; exact a, by rw [hht, e2]; exact b, by rw [e2, h1]; exact c⟩
+  · intro d' hd' hnone hmem
+    obtain ⟨d, e1, e2, e3, e4⟩ := hd d' hd'
+    obtain ⟨a, b⟩ := hinv.fresh d e1 (e4 hnone) (by rw [← e2]; exact hmem)
+    exact ⟨by rw [e3]; exact a, by rw [e2]; exact b⟩
+
+/-- the controller made a step -/
+theorem Inv.ext {st st1 : RSt} {H : List Nat} (hinv : Inv st H) (hext : Ext st st1) (hok : StoredOK st1) : Inv st1 H := by
+  refine ⟨hok, ?_, ?_, ?_, ?_, ?_⟩
+  · rw [hext.role]; exact hinv.noCons
+  · intro h hh; exact Nat.le_trans (hinv.le h hh) hext.ch
+  · intro h
+    apply hext.ne
+    apply hinv.ne
+    rw [hext.duty] at h; exact h
+  · intro d rid hd hr
+    rw [hext.duty] at hd
+    obtain ⟨a, b, c⟩ := hinv.run d rid hd hr
+    exact ⟨Nat.lt_of_lt_of_le a hext.len, by rw [hext.hts rid a]; exact b, Nat.le_trans c hext.ch⟩
+  · intro d hd; rw [hext.duty] at hd; exact hinv.fresh d hd
+
+/-- `BaseRunner.decide` keeps the invariant -/
+theorem decideDuty_inv (st : RSt) (d : DutySt) (ok : Bool) (H : List Nat) (hinv : Inv { st with duty := some d } H) :
+    Inv (decideDuty st d ok).1 H := by
+  have hok : StoredOK st := hinv.ok
+  obtain ⟨hext, hok1, hsucc⟩ := startNewInstance_ext st d.slot ok hok
+  unfold decideDuty
+  generalize hr : startNewInstance st d.slot ok = r at hext hok1 hsucc
+  obtain ⟨st1, res⟩ := r
+  simp only [] at hext hok1 hsucc
+  cases res with
+  | none =>
+    simp only []
+    have hext' : Ext { st with duty := some d } { st1 with duty := some d } :=
+      ⟨hext.ch, hext.len, hext.hts, hext.ne, hext.role, rfl⟩
+    exact hinv.ext hext' hok1
+  | some id =>
+    simp only []
+    obtain ⟨s1, s2, s3, s4, s5, s6⟩ := hsucc id rfl
+    refine ⟨hok1, ?_, ?_, fun _ => s4, ?_, ?_⟩
+    · show st1.role.hasConsensus = false → H = []
+      rw [hext.role]; exact hinv.noCons
+    · intro h hh; exact Nat.le_trans (hinv.le h hh) hext.ch
+    · intro d' rid hd' hrun
+      simp only [Option.some.injEq] at hd'
+      subst hd'
+      simp only [Option.some.injEq] at hrun
+      subst hrun
+      exact ⟨s1, s2, Nat.le_of_eq s3.symm⟩
+    · intro d' hd' hnone hmem
+      simp only [Option.some.injEq] at hd'
+      subst hd'
+      exfalso
+      obtain ⟨_, hz⟩ := hinv.fresh d rfl hnone hmem
+      -- slot 0 was signed before and the controller is still at height 0: an instance of height 0 is stored
+      have hmem0 : (0 : Nat) ∈ H := hz ▸ hmem
+      have hne : st.stored ≠ [] := hinv.ne (Or.inl hmem0)
+      obtain ⟨x, hx⟩ := List.exists_mem_of_ne_nil _ hne
+      obtain ⟨_, hxh⟩ := hok x hx
+      have hc0 : st.ctrlHeight = 0 := by rw [hz] at s5; omega
+      have hx0 : heightOf st x = 0 := by rw [hc0] at hxh; omega
+      rw [hz] at s6
+      unfold findInst at s6
+      have := List.find?_eq_none.1 s6 x hx
+      simp [hx0] at this
+
+
+/-! ### signatures of one input -/
+
+theorem evSigns_nil_of (evs : List Ev) (h : ∀ e ∈ evs, e.isSign = false) : evSigns evs = [] := by
+  unfold evSigns
+  rw [List.filterMap_eq_nil_iff]
+  intro e he
+  have := h e he
+  cases e <;> simp [Ev.isSign] at this ⊢
+
+theorem evSigns_atStart (slot : Nat) (objs : List Nat) (s : Nat) (dom : Dom) (rest : List Nat) :
+    evSigns (signAll (.atStart slot) objs s dom ++ [.bcast rest]) = [] := by
+  unfold evSigns signAll
+  rw [List.filterMap_eq_nil_iff]
+  intro e he
+  simp only [List.mem_append, List.mem_map, List.mem_singleton] at he
+  rcases he with ⟨o, _, rfl⟩ | rfl <;> rfl
+
+theorem evSigns_decided (h : Nat) (objs : List Nat) (s : Nat) (dom : Dom) (rest : List Nat) :
+    evSigns (signAll (.decided h) objs s dom ++ [.bcast rest]) = objs.map fun o => (h, o) := by
+  unfold evSigns signAll
+  rw [List.filterMap_append, List.filterMap_map]
+  simp [Function.comp_def]
+
+/-- shape of the state after a consensus message -/
+theorem processConsG_shape (pd : Bool) (st : RSt) (c : ConsIn) :
+    (processConsG pd st c).1 = st ∨
+    ((processConsG pd st c).1.ctrlHeight = (ctlProcess st c).1.ctrlHeight ∧
+     (processConsG pd st c).1.stored = (ctlProcess st c).1.stored ∧
+     (processConsG pd st c).1.heap = (ctlProcess st c).1.heap ∧
+     (processConsG pd st c).1.role = (ctlProcess st c).1.role ∧
+     ((processConsG pd st c).1.duty = (ctlProcess st c).1.duty ∨
+      ∃ d v, (ctlProcess st c).1.duty = some d ∧ (processConsG pd st c).1.duty = some { d with decidedValue := some v })) := by
+  unfold processConsG
+  split
+  · exact Or.inl rfl
+  · right
+    generalize ctlProcess st c = r
+    obtain ⟨st1, out⟩ := r
+    cases out with
+    | err => exact ⟨rfl, rfl, rfl, rfl, Or.inl rfl⟩
+    | nothing => exact ⟨rfl, rfl, rfl, rfl, Or.inl rfl⟩
+    | decidedMsg h v =>
+      simp only []
+      split
+      · exact ⟨rfl, rfl, rfl, rfl, Or.inl rfl⟩
+      · next d hd =>
+        repeat' split
+        all_goals first
+          | exact ⟨rfl, rfl, rfl, rfl, Or.inl rfl⟩
+          | exact ⟨rfl, rfl, rfl, rfl, Or.inr ⟨d, v, hd, rfl⟩⟩
+
+
+/-- a consensus message: the invariant continues with the (possibly) newly signed height, which is new -/
+theorem processConsG_inv (pd : Bool) (st : RSt) (c : ConsIn) (H : List Nat) (hinv : Inv st H)
+    (hpd : pd = false → ∀ d, st.duty = some d → d.finished = false → d.decidedValue = none)
+    (hobjs : c.value.objs.Nodup) :
+    Inv (processConsG pd st c).1 (H ++ (evSigns (processConsG pd st c).2.2).map (·.1)) ∧
+    (evSigns (processConsG pd st c).2.2).Nodup ∧ ∀ p ∈ evSigns (processConsG pd st c).2.2, p.1 ∉ H := by
+  obtain ⟨hext, hok1⟩ := ctlProcess_ext st c hinv.ok
+  have hinv1 : Inv (ctlProcess st c).1 H := hinv.ext hext hok1
+  by_cases hsig : ∃ e ∈ (processConsG pd st c).2.2, e.isSign = true
+  · -- the signing branch
+    obtain ⟨e, he, hs⟩ := hsig
+    obtain ⟨h, v, d, rid, hctl, hd, hfin, hr, hh, hpdf, hcons, _, _, _, hstate, hevs, _⟩ := processConsG_sign pd st c e he hs
+    obtain ⟨_, _, hv, _⟩ := ctlProcess_decided_sound st c h v hctl
+    obtain ⟨r1, r2, r3⟩ := hinv.run d rid hd hr
+    have hslot : h = d.slot := by rw [← hh, hext.hts rid r1]; exact r2
+    have hnone : d.decidedValue = none := hpd hpdf d hd hfin
+    have hnotin : d.slot ∉ H := by
+      intro hm
+      have := (hinv.fresh d hd hnone hm).1
+      rw [hr] at this; cases this
+    rw [hevs, evSigns_decided]
+    refine ⟨?_, ?_, ?_⟩
+    · rw [hstate]
+      have hd1 : (ctlProcess st c).1.duty = some d := by rw [hext.duty]; exact hd
+      obtain ⟨q1, q2, q3⟩ := hinv1.run d rid hd1 hr
+      refine ⟨hok1, ?_, ?_, ?_, ?_, ?_⟩
+      · intro hn
+        have : (ctlProcess st c).1.role = st.role := hext.role
+        rw [this, hcons] at hn; cases hn
+      · intro x hx
+        rcases List.mem_append.1 hx with a | a
+        · exact hinv1.le x a
+        · simp only [List.map_map, List.mem_map, Function.comp_apply] at a
+          obtain ⟨_, _, rfl⟩ := a
+          rw [hslot]; exact q3
+      · intro _
+        exact hinv1.ne (Or.inr ⟨d, rid, hd1, hr⟩)
+      · intro d' rid' hd' hr'
+        simp only [Option.some.injEq] at hd'
+        subst hd'
+        exact hinv1.run d rid' hd1 hr'
+      · intro d' hd' hn
+        simp only [Option.some.injEq] at hd'
+        subst hd'
+        cases hn
+    · rw [hv]
+      rw [List.Nodup, List.pairwise_map]
+      exact hobjs.imp (fun hab e => hab (by simpa using e))
+    · intro p hp
+      simp only [List.mem_map] at hp
+      obtain ⟨_, _, rfl⟩ := hp
+      rw [hslot]; exact hnotin
+  · -- nothing signed
+    have hnos : ∀ e ∈ (processConsG pd st c).2.2, e.isSign = false := by
+      intro e he
+      cases hs : e.isSign with
+      | false => rfl
+      | true => exact absurd ⟨e, he, hs⟩ hsig
+    rw [evSigns_nil_of _ hnos]
+    simp only [List.map_nil, List.append_nil, List.nodup_nil, List.not_mem_nil, false_imp_iff, implies_true, and_true]
+    rcases processConsG_shape pd st c with e | ⟨s1, s2, s3, s4, s5⟩
+    · rw [e]; exact hinv
+    · apply hinv1.of_same s1 s2 s3 s4
+      intro d' hd'
+      rcases s5 with s5 | ⟨d, v, e1, e2⟩
+      · exact ⟨d', by rw [← s5]; exact hd', rfl, rfl, fun h => h⟩
+      · rw [e2] at hd'
+        simp only [Option.some.injEq] at hd'
+        subst hd'
+        exact ⟨d, e1, rfl, rfl, fun h => by cases h⟩
+
+theorem prevDecided_false (st : RSt) (h : prevDecided st = false) :
+    ∀ d, st.duty = some d → d.finished = false → d.decidedValue = none := by
+  intro d hd hfin
+  simp only [prevDecided, Bool.or_eq_false_iff] at h
+  have h2 := h.2
+  simp only [dutyDecided, hd, hfin, Bool.not_false, Bool.true_and] at h2
+  cases hv : d.decidedValue with
+  | none => rfl
+  | some v => rw [hv] at h2; simp at h2
+
+/-- a duty-state update that keeps slot, running instance and decided value -/
+theorem Inv.dutyTouch {st : RSt} {H : List Nat} (hinv : Inv st H) (d d' : DutySt) (hd : st.duty = some d)
+    (h1 : d'.slot = d.slot) (h2 : d'.running = d.running) (h3 : d'.decidedValue = d.decidedValue) :
+    Inv { st with duty := some d' } H := by
+  apply hinv.of_same (st' := { st with duty := some d' }) rfl rfl rfl rfl
+  intro d'' hd''
+  simp only [Option.some.injEq] at hd''
+  subst hd''
+  exact ⟨d, hd, h1, h2, fun h => by rw [← h3]; exact h⟩
+
+theorem startDuty_inv (st : RSt) (slot : Nat) (pre : List Nat) (iok : Bool) (H : List Nat) (hinv : Inv st H) :
+    Inv (startDuty st slot pre iok).1 H ∧ evSigns (startDuty st slot pre iok).2.2 = [] := by
+  unfold startDuty
+  split
+  · exact ⟨hinv, rfl⟩
+  · next href =>
+    -- a fresh duty state is compatible with the invariant
+    have hfresh : Inv { st with duty := some (freshDuty slot pre) } H := by
+      refine ⟨hinv.ok, hinv.noCons, hinv.le, ?_, ?_, ?_⟩
+      · intro h
+        apply hinv.ne
+        rcases h with h | ⟨d, rid, hd, hr⟩
+        · exact Or.inl h
+        · simp only [Option.some.injEq] at hd
+          subst hd
+          simp [freshDuty] at hr
+      · intro d rid hd hr
+        simp only [Option.some.injEq] at hd
+        subst hd
+        simp [freshDuty] at hr
+      · intro d hd _ hmem
+        simp only [Option.some.injEq] at hd
+        subst hd
+        refine ⟨rfl, ?_⟩
+        show slot = 0
+        have hle := hinv.le slot hmem
+        by_cases hc : st.role.hasConsensus = true
+        · simp only [refuseDuty, hc, if_true, Bool.and_eq_true, decide_eq_true_eq, bne_iff_ne, ne_eq, not_and,
+            Decidable.not_not] at href
+          have := href hle
+          omega
+        · have : H = [] := hinv.noCons (by simpa using hc)
+          rw [this] at hmem; cases hmem
+    split
+    · exact ⟨hfresh, evSigns_atStart _ _ _ _ _⟩
+    · exact ⟨decideDuty_inv st _ iok H hfresh, rfl⟩
+
+theorem processPre_inv (st : RSt) (m : PartialSig.Msg) (slot : Nat) (iok : Bool) (H : List Nat) (hinv : Inv st H) :
+    Inv (processPre st m slot iok).1 H := by
+  unfold processPre
+  split
+  · exact hinv
+  · next d hd =>
+    split
+    · exact hinv
+    · simp only []
+      split
+      · exact hinv.dutyTouch d _ hd rfl rfl rfl
+      · split
+        · exact decideDuty_inv st _ iok H (hinv.dutyTouch d _ hd rfl rfl rfl)
+        · exact hinv.dutyTouch d _ hd rfl rfl rfl
+
+theorem processPost_inv (st : RSt) (m : PartialSig.Msg) (slot : Nat) (H : List Nat) (hinv : Inv st H) :
+    Inv (processPost st m slot).1 H := by
+  unfold processPost
+  split
+  · exact hinv
+  · split
+    · exact hinv
+    · next d hd =>
+      split
+      · split
+        · exact hinv
+        · exact hinv.dutyTouch d _ hd rfl rfl rfl
+      · exact hinv
+
+/-- one input -/
+theorem step_inv (st : RSt) (i : In) (H : List Nat) (hinv : Inv st H)
+    (hobjs : ∀ c, i = .cons c → c.value.objs.Nodup) :
+    Inv (step st i).1 (H ++ (evSigns (step st i).2.2).map (·.1)) ∧
+    (evSigns (step st i).2.2).Nodup ∧ ∀ p ∈ evSigns (step st i).2.2, p.1 ∉ H := by
+  cases i with
+  | start slot pre iok =>
+    obtain ⟨a, b⟩ := startDuty_inv st slot pre iok H hinv
+    simp only [step, b, List.map_nil, List.append_nil]
+    exact ⟨a, List.nodup_nil, fun _ h => by cases h⟩
+  | pre m slot iok =>
+    simp only [step, evSigns_nil_of _ (processPre_no_sign st m slot iok), List.map_nil, List.append_nil]
+    exact ⟨processPre_inv st m slot iok H hinv, List.nodup_nil, fun _ h => by cases h⟩
+  | post m slot =>
+    simp only [step, evSigns_nil_of _ (processPost_no_sign st m slot), List.map_nil, List.append_nil]
+    exact ⟨processPost_inv st m slot H hinv, List.nodup_nil, fun _ h => by cases h⟩
+  | «foreign» =>
+    simp only [step, evSigns, List.filterMap_nil, List.map_nil, List.append_nil]
+    exact ⟨hinv, List.nodup_nil, fun _ h => by cases h⟩
+  | cons c =>
+    simp only [step, processCons]
+    exact processConsG_inv (prevDecided st) st c H hinv (prevDecided_false st) (hobjs c rfl)
+
+/-- over every input sequence: no (decision height, root) is signed twice, also counting what was signed before -/
+theorem run_decidedSigns_nodup (ins : List In) (st : RSt) (Sg : List (Nat × Nat)) (hSg : Sg.Nodup)
+    (hinv : Inv st (Sg.map (·.1))) (hobjs : ∀ i ∈ ins, ∀ c, i = .cons c → c.value.objs.Nodup) :
+    (Sg ++ decidedSigns (run st ins)).Nodup := by
+  induction ins generalizing st Sg with
+  | nil => simpa [run, decidedSigns] using hSg
   | cons i t ih =>
-    intro p hp
-    simp only [run, List.mem_cons] at hp
-    obtain ⟨a, b⟩ := step_quiet st i (hq i (by simp)) h
-    rcases hp with e | hp
-    · subst e; exact b
-    · exact ih (step st i).1 (by intro j hj; rw [step_role]; exact hq j (List.mem_cons_of_mem _ hj)) a p hp
+    obtain ⟨a, b, c⟩ := step_inv st i (Sg.map (·.1)) hinv (hobjs i (by simp))
+    have hnd : (Sg ++ evSigns (step st i).2.2).Nodup := by
+      rw [List.nodup_append]
+      refine ⟨hSg, b, ?_⟩
+      intro x hx y hy e
+      subst e
+      exact c x hy (List.mem_map_of_mem hx)
+    have := ih (step st i).1 (Sg ++ evSigns (step st i).2.2) hnd (by rw [List.map_append]; exact a)
+      (fun j hj => hobjs j (List.mem_cons_of_mem _ hj))
+    simpa [run, decidedSigns, List.append_assoc] using this
 
-
-/-- a signing consensus step marks the runner's own instance object decided, provided the controller's instance for the
-    message height is that object -/
-theorem processCons_sign_RD (st : RSt) (c : ConsIn)
-    (hk : ∀ d rid, st.duty = some d → d.running = some rid → (∃ i, instOf st rid = some i) ∧ findInst st c.height = some rid)
-    (e : Ev) (he : e ∈ (processCons st c).2.2) (hs : e.isSign = true) : RD (processCons st c).1 := by
-  obtain ⟨h, v, d, rid, hctl, hd, _, hr, _, _, _, _, _, _, hduty', hheap, _⟩ := processCons_sign st c e he hs
-  obtain ⟨hi, hf⟩ := hk d rid hd hr
-  have hm := ctlProcess_marks st c h v rid hctl hf hi
-  exact ⟨_, rid, hduty', hr, decidedAt_heap _ _ rid hheap hm⟩
 
 end Ssv.Runner
